@@ -10,6 +10,7 @@
 #include <Eigen/Core>
 #include <cmath>    // std::sqrt
 #include <complex>  // std::real
+#include "../../Util/VerifHooks.h"
 
 namespace Spectra {
 
@@ -32,6 +33,9 @@ namespace Spectra {
 template <typename Scalar, typename OpType, typename BOpType>
 class ArnoldiOp
 {
+#ifdef SPECTRA_VERIF
+    friend struct ::SpectraVerifAccess;
+#endif
 private:
     // The real part type of the matrix element
     using RealScalar = typename Eigen::NumTraits<Scalar>::Real;
@@ -110,6 +114,9 @@ class IdentityBOp
 template <typename Scalar, typename OpType>
 class ArnoldiOp<Scalar, OpType, IdentityBOp>
 {
+#ifdef SPECTRA_VERIF
+    friend struct ::SpectraVerifAccess;
+#endif
 private:
     // The real part type of the matrix element
     using RealScalar = typename Eigen::NumTraits<Scalar>::Real;
